@@ -219,3 +219,59 @@ Example C10_pipeline_nonvacuous :
       (Socketcan.Receiver.receive_calls 2 (map Socketcan.Receiver.RData [firstn 5 bs; skipn 5 bs] ++ [Socketcan.Receiver.REOF]))
   = [Some (frame_of m [9; 0; -2048; 0; 0]); Some (frame_of m (new_state m))].
 Proof. vm_compute. split; reflexivity. Qed.
+
+(** WIRING TIE (Gen/Wiring.v; see Properties/C03.v for Frame()/UnmarshalFrame()). [w] is the first-order reading of the
+    emitted Go text of one message type (harness/genwire). When the decidable checker - evaluated on every generated
+    message of every run - accepts it, the emitted Reset() stores the interpreter's start values in EVERY state ... *)
+From CanVerif Require Import Gen.Wiring Gen.WiringProofs Gen.Api.
+Theorem C10_wiring_reset : forall m w st,
+  reset_wiring_ok m w = true -> length st = length (msg_signals m) ->
+  wiring_reset w st = Some (reset_state m).
+Proof. exact wiring_reset_correct. Qed.
+Print Assumptions C10_wiring_reset.
+(** ... the emitted CopyFrom() (f, _ := o.MarshalFrame(); _ = m.UnmarshalFrame(f); return m over the emitted Frame() and
+    UnmarshalFrame()) is the interpreter's [copy_from] for ALL pairs of states ... *)
+Theorem C10_wiring_copy : forall m w st other,
+  frame_wiring_ok m w = true -> unmarshal_wiring_ok m w = true -> w_copy w = true ->
+  length st = length (msg_signals m) -> length other = length (msg_signals m) ->
+  wiring_copy m w st other = Some (copy_from m st other).
+Proof. exact wiring_copy_correct. Qed.
+Print Assumptions C10_wiring_copy.
+(** ... and EVERY setter method of the emitted type is the raw setter (Set<Signal>, or SetRaw<Signal> when the signal has
+    physical accessors) or the physical setter (Set<Signal>(float64)) of one signal of THIS message and stores the
+    interpreter's value ([raw_set] = saturate-then-convert, [phys_set] = T(FromPhysical(v))) for EVERY argument and state *)
+Theorem C10_wiring_setters : forall m w,
+  setters_wiring_ok m w = true ->
+  Forall (fun ns => exists i s, nth_error (msg_signals m) i = Some s /\
+            ((st_method ns = (if has_physical s then setraw_prefix else set_prefix) ++ s_name s /\
+              forall st v, wiring_setter m w ns st v = Some (raw_set m st i v)) \/
+             (has_physical s = true /\ st_method ns = set_prefix ++ s_name s /\
+              forall st x, wiring_setter m w ns st x = Some (phys_set m st i x))))
+         (w_setters w).
+Proof. exact wiring_setters_correct. Qed.
+Print Assumptions C10_wiring_setters.
+
+(** non-vacuity: Reset, the five setters and getters of the example message as harness/genwire prints them; a setter that
+    converts before saturating (cin = int16 instead of int64) is refused *)
+Definition C10_example_wiring (cin3 : name) : wiring :=
+  let u8 := [117; 105; 110; 116; 56] in let u16 := [117; 105; 110; 116; 49; 54] in let i16 := [105; 110; 116; 49; 54] in
+  let u64 := [117; 105; 110; 116; 54; 52] in let i64 := [105; 110; 116; 54; 52] in
+  let bool := [98; 111; 111; 108] in let f32 := [102; 108; 111; 97; 116; 51; 50] in let f64 := [102; 108; 111; 97; 116; 54; 52] in
+  let fld n := xxx_prefix ++ [n] in
+  let set n p b := {| st_method := set_prefix ++ [n]; st_field := fld n; st_param := p; st_body := b |} in
+  let get n t := {| gt_method := [n]; gt_field := fld n; gt_result := t; gt_body := GbField |} in
+  {| w_fields := w_fields C03_example_wiring; w_types := []; w_msg_index := 3; w_descs := w_descs C03_example_wiring;
+     w_init := w_init C03_example_wiring; w_frame := w_frame C03_example_wiring; w_unmarshal := w_unmarshal C03_example_wiring;
+     w_reset := [(fld 1, RInt 0); (fld 2, RBool false); (fld 3, RInt 0); (fld 4, RInt 0); (fld 5, RInt 0)];
+     w_copy := true;
+     w_setters := [set 1 u8 (SbSat StUnsigned [1] u64 u8); set 2 bool SbDirect; set 3 i16 (SbSat StSigned [3] cin3 i16);
+                   set 4 u16 (SbSat StUnsigned [4] u64 u16); set 5 f32 (SbSat StFloat [5] f64 f32)];
+     w_getters := [get 1 u8; get 2 bool; get 3 i16; get 4 u16; get 5 f32] |}.
+Example C10_wiring_nonvacuous :
+  wiring_ok_c10 3 C03_example_message (C10_example_wiring [105; 110; 116; 54; 52]) = true /\
+  wiring_ok_c10 3 C03_example_message (C10_example_wiring [105; 110; 116; 49; 54]) = false /\
+  match nth_error (w_setters (C10_example_wiring [105; 110; 116; 54; 52])) 2 with
+  | Some ns => wiring_setter C03_example_message (C10_example_wiring [105; 110; 116; 54; 52]) ns [9; 0; 0; 0; 0] (-3000)
+  | None => None
+  end = Some [9; 0; -2048; 0; 0].
+Proof. vm_compute. repeat split; reflexivity. Qed.
